@@ -4,7 +4,9 @@
 
   nasim/scenarios/loader.py  ScenarioLoader._validate_subnets, _validate_topology, _validate_os, _validate_services,
                              _validate_processes, _is_valid_subnet_ID, _is_valid_host_address, _validate_scan_cost,
-                             _is_valid_firewall_setting, and the step-limit test of _parse_step_limit
+                             _is_valid_firewall_setting, _contains_all_required_firewalls, _validate_firewall,
+                             _validate_sensitive_hosts (with `eval` of an address key as the documented `(int, int)`
+                             spelling), and the step-limit test of _parse_step_limit
 
 and prints each as a Lean function into `Bool` over the YAML AST `Y` of the loader model (`Generated/SrcLoad.lean`):
 "the validator returns normally" resp. "returns True".  `assert c` is "if not c: reject"; any operation Python would
@@ -20,7 +22,7 @@ from pysrc_act import TrAct
 
 LEAN_TYPE = pysrc.LEAN_TYPE
 LEAN_TYPE.update({"Y": "Load.Y", "YList": "List Load.Y", "Loader": "Unit", "NatList": "List Nat", "YMap": "List (Load.Y × Load.Y)",
-                  "TopoL": "List (List Int)", "IntList": "List Int"})
+                  "TopoL": "List (List Int)", "IntList": "List Int", "PyInt": "Int", "IntPair": "Int × Int"})
 
 
 class TrLoad(TrAct):
@@ -38,6 +40,8 @@ class TrLoad(TrAct):
                 return "services", "YList"
             if e.attr == "topology":
                 return "topology", "TopoL"
+            if e.attr == "num_hosts":
+                return "num_hosts", "Nat"
         if isinstance(e, ast.Subscript):
             o, t = self.expr(e.value, env)
             if t == "NatList":
@@ -77,6 +81,10 @@ class TrLoad(TrAct):
             if fn != "yeq" and not self.guarded(l):
                 self.err(e, "ordering comparison of a YAML value outside an assert and without a type guard")
             return f"(PyRt.{fn} {a} {k})", "Bool"
+        if ta == "IntPair" and tb == "IntPair" and isinstance(op, (ast.Eq, ast.NotEq)):
+            return (f"({a} == {b})" if isinstance(op, ast.Eq) else f"({a} != {b})"), "Bool"
+        if ta == "Nat" and tb == "Nat" and isinstance(op, ast.LtE):
+            return f"(decide ({a} ≤ {b}))", "Bool"
         if ta == "Y" and tb == "Y" and isinstance(op, ast.Eq):
             return f"({a}.pyEq {b})", "Bool"
         if isinstance(op, (ast.In, ast.NotIn)) and ta == "Str" and tb == "YMap":
@@ -107,7 +115,7 @@ class TrLoad(TrAct):
                     self.err(e, f"set of {t}")
                 return f"(PyRt.setLen {o})", "OptNat"
             o, t = self.expr(a, env)
-            if t in ("YList", "NatList"):
+            if t in ("YList", "NatList", "YMap"):
                 return f"{o}.length", "Nat"
             if t == "Y":
                 if ast.unparse(a) in getattr(self, "known_lists", set()):
@@ -124,6 +132,19 @@ class TrLoad(TrAct):
                 return f"(PyRt.enumerate {o})", "List:Nat*IntList"
             if t == "IntList":
                 return f"(PyRt.enumerate {o})", "List:Nat*Int"
+        if isinstance(f, ast.Attribute) and f.attr == "keys" and not e.args:
+            o, t = self.expr(f.value, env)
+            if t == "YMap":
+                return f"({o}.map (·.1))", "YList"
+        if isinstance(f, ast.Attribute) and f.attr == "items" and not e.args:
+            o, t = self.expr(f.value, env)
+            if t == "YMap":
+                return o, "List:Y*Y"
+        if text == "isinstance" and len(e.args) == 2 and isinstance(e.args[1], ast.Tuple) \
+                and sorted(ast.unparse(x) for x in e.args[1].elts) == ["float", "int"]:
+            o, t = self.expr(e.args[0], env)
+            if t == "Y":
+                return f"({o}.toRat?.isSome)", "Bool"
         if isinstance(f, ast.Attribute) and f.attr == "values" and not e.args:
             o, t = self.expr(f.value, env)
             if t == "YMap":
@@ -142,7 +163,13 @@ class TrLoad(TrAct):
         if isinstance(f, ast.Attribute) and isinstance(f.value, ast.Name) and f.value.id == "self":
             fn = self.w.lookup("Loader", f.attr)
             if fn is not None:
-                args = " ".join(self.expr(a, env)[0] for a in e.args)
+                parts = []
+                for a, (pn, pt) in zip(e.args, fn.params):
+                    ao, at = self.expr(a, env)
+                    if at == "PyInt" and pt == "Y":
+                        ao = f"(Load.Y.int {ao})"
+                    parts.append(ao)
+                args = " ".join(parts)
                 ctx = " ".join(fn.ctx)
                 return f"({fn.lean} {ctx} {args})".replace("  ", " "), "Bool"
         return super().call(e, env)
@@ -162,6 +189,33 @@ class TrLoad(TrAct):
             fail = ".ret false" if getattr(self, "loop", None) is not None else "false"
             return f"{pad}if !{c} then\n{pad}  {fail}\n{pad}else\n" + self.block(rest, env, k, ind + 1)
         return super().block(stmts, env, k, ind)
+
+    def assign(self, tgt, value, env, nxt, ind):
+        pad = "  " * ind
+        if isinstance(value, ast.Call) and ast.unparse(value.func) == "eval" and len(value.args) == 1:
+            # eval of an address key: the documented `(int, int)` spelling parses, anything else raises (rejection)
+            k, kt = self.expr(value.args[0], env)
+            if kt != "Y":
+                self.err(value, f"eval of {kt}")
+            fail = ".ret false" if getattr(self, "loop", None) is not None else "false"
+            env2 = dict(env)
+            if isinstance(tgt, ast.Tuple) and len(tgt.elts) == 2 and all(isinstance(x, ast.Name) for x in tgt.elts):
+                a, b = tgt.elts[0].id, tgt.elts[1].id
+                env2[a] = ("val", "PyInt"); env2[b] = ("val", "PyInt")
+                pat = f"({a}, {b})"
+            elif isinstance(tgt, ast.Name):
+                env2[tgt.id] = ("val", "IntPair")
+                pat = tgt.id
+            else:
+                self.err(tgt, "target of eval")
+            return (f"{pad}match PyRt.evalAddr {k} with\n{pad}| none => {fail}\n{pad}| some {pat} =>\n"
+                    + self.block_after(nxt, env2, ind + 1))
+        return super().assign(tgt, value, env, nxt, ind)
+
+    def block_after(self, nxt, env2, ind):
+        # `nxt` translates the rest at the caller's indentation; re-indent by one level
+        text = nxt(env2)
+        return "".join("  " + ln + "\n" for ln in text.rstrip("\n").split("\n"))
 
     def cond(self, e, env):
         """a Boolean chain, left to right; a `type(x) is [not] int` operand admits ordering comparisons on x afterwards"""
@@ -317,6 +371,7 @@ def translate_loader():
     emit(mk("_is_valid_host_address", ["subnets"], ["NatList"], [("subnet_ID", "Y"), ("host_ID", "Y")]))
     emit(mk("_validate_scan_cost", [], [], [("scan_name", "Unit"), ("scan_cost", "Y")]))
     emit(mk("_is_valid_firewall_setting", ["services"], ["YList"], [("f", "Y")]))
+    emit(mk("_validate_sensitive_hosts", ["subnets", "num_hosts"], ["NatList", "Nat"], [("sensitive_hosts", "YMap")]))
     emit(mk("_contains_all_required_firewalls", ["topology"], ["TopoL"], [("firewall", "YMap")]))
     emit(mk("_validate_firewall", ["topology", "services"], ["TopoL", "YList"], [("firewall", "YMap")]))
     fn = mk("step_limit_ok", [], [], [("step_limit", "Y")])
